@@ -345,25 +345,26 @@ class Origins:
     def _parse(self, v, kinds):
         """v as a concatenation of recorded outputs of the given kinds -> list of (kind, keyed) or None"""
         n = len(v)
-        memo = {}
-
-        def go(pos):
-            if pos == n:
-                return []
-            if pos in memo:
-                return memo[pos]
-            res = None
+        # nxt[pos] = (piece length, hit) of the first piece of some complete parse of v[pos:], computed from the end
+        # (iteratively: a bucket may be the concatenation of thousands of pieces)
+        nxt = {n: None}
+        starts = {n}
+        for pos in range(n - 1, -1, -1):
             for L in self.piece_lens:
-                if pos + L <= n:
+                if pos + L in starts:
                     hit = self.exact.get(v[pos:pos + L])
                     if hit and hit[0] in kinds:
-                        rest = go(pos + L)
-                        if rest is not None:
-                            res = [hit] + rest
-                            break
-            memo[pos] = res
-            return res
-        return go(0)
+                        nxt[pos] = (L, hit)
+                        starts.add(pos)
+                        break
+        if 0 not in starts:
+            return None
+        out, pos = [], 0
+        while pos != n:
+            L, hit = nxt[pos]
+            out.append(hit)
+            pos += L
+        return out
 
     def classify(self, x):
         if x is None:
@@ -439,7 +440,7 @@ def model_ctlen(scheme, sch, idsz):
 def run_case(job):
     scheme, cfg, p, sh, seed_ = job["scheme"], job["cfg"], job["p"], job["sh"], job["seed"]
     rnd = random.Random(seed_)
-    idsz = sc.id_size_of(cfg)
+    idsz = job.get("idsz") or sc.id_size_of(cfg)
     kwlen = min(KWLEN, cfg.get("param_l", KWLEN)) if scheme.startswith("CGKO06") else KWLEN
     db = sc.make_db(p, idsz, rnd, kw_len=kwlen, shared_ids=sh)
     cfg = se.fit(scheme, cfg, p, db)
@@ -657,7 +658,8 @@ def main(argv_tier=None, replay_path=None):
     if replay_path:
         with open(replay_path) as fh:
             rp = json.load(fh)
-        rec, info = run_case({"scheme": rp["scheme"], "cfg": rp["cfg"], "p": rp["p"], "sh": rp["sh"], "seed": rp["seed"]})
+        rec, info = run_case({"scheme": rp["scheme"], "cfg": rp["cfg"], "p": rp["p"], "sh": rp["sh"], "seed": rp["seed"],
+                              "idsz": rp.get("idsz"), **({"fresh2": rp["fresh2"]} if "fresh2" in rp else {})})
         rej, drift, _ = validate_layers([{"tid": "replay", "ev": [rec]}], "c04-replay", 1)
         small = dict(rec, ct1=len(rec["ct1"]), ct2=len(rec["ct2"]), ivs=len(rec["ivs"]))
         print(json.dumps(small, indent=1)[:3000])
@@ -687,6 +689,19 @@ def main(argv_tier=None, replay_path=None):
             d = dict(d, param_dictionary_size=16)
         for p, sh in ([([3, 3, 2, 1], True), ([5, 1, 4], False)] if tr == "quick" else random_profiles(s, dict(d), rnd, tr)[:6]):
             jobs.append({"scheme": s, "gi": -1, "cfg": d, "p": p, "sh": sh, "src": "default"})
+    # a randomness source that hands out a recycled pool of IVs repeats itself between two setups exactly when the number of
+    # encryptions of one setup is a multiple of the pool size: databases with 2^10 (thorough: 2^12) postings, second setup
+    # with the same scheme object and with a fresh one
+    npool = 1024 if tr == "quick" else 4096
+    for s in ("CJJ14.PiBas", "CJJ14.PiPack", "CJJ14.PiPtr", "CT14.Pi", "ANSS16.Scheme3", "DP17.Pi"):
+        d = dict(force_ids(sc.default_config(s)))
+        if "param_B" in d:
+            d["param_B"] = 1
+        if "param_identifier_size" in d:
+            d["param_identifier_size"] = 16         # keeps the chance-occurrence bound below 2^-40 with this many identifiers
+        for fresh2 in (False, True):
+            jobs.append({"scheme": s, "gi": -3, "cfg": d, "p": [npool // 16] * 16, "sh": False, "src": "pool", "fresh2": fresh2,
+                         "idsz": 16})
     if tr == "thorough":
         # larger databases (the sizes of the repository's own tests, scaled down), 16-byte identifiers to keep the chance bound
         for s in sc.SCHEMES:
@@ -738,6 +753,7 @@ def main(argv_tier=None, replay_path=None):
         if len(vio_out) < 20:
             path = write_replay(PROP, "%s-%d" % (rec["scheme"].replace(".", "_"), len(vio_out)),
                                 {"scheme": rec["scheme"], "cfg": info["cfg"], "p": rec["p"], "sh": rec["sh"], "seed": info["seed"],
+                                 "idsz": rec["idlen"], "fresh2": info.get("fresh2", False),
                                  "verdict": x["verdict"], "hits": rec["hits"][:20], "err": info["err"],
                                  "n_ct": [len(rec["ct1"]), len(rec["ct2"])]})
         vio_out.append(("%s clause=%s %s" % (describe(rec, info), x["verdict"]["clause"], info["err"]), path))
